@@ -84,7 +84,7 @@ FsReq(a) ==
 Req(a) == CASE Facet = "svc" -> SvcReq(a) [] Facet = "app" -> AppReq(a) [] OTHER -> FsReq(a)
 
 Compromise == IF Facet = "fs" THEN (IF op = "PRESENT" THEN "CORRUPT" ELSE hs)
-              ELSE (IF op = "RUNNING" /\ hs = "GOOD" THEN "COMPROMISED" ELSE hs)
+              ELSE (IF op = "RUNNING" /\ hs \in {"GOOD", "FIXING"} THEN "COMPROMISED" ELSE hs)  \* (mid-fix too: the countdown goes stale)
 
 (* ---- one tick, applied to the state (p, c, r) of the node and (o, k, h, f) of the component ---- *)
 Dec(x) == IF x > 0 THEN x - 1 ELSE 0
